@@ -442,7 +442,20 @@ func seedfix4C27(c *Ctx) {
 					return
 				}
 				n++
-				_, isCall := mu.Key.(*ssa.Call)
+				// the key is a constant or the configured element itself (a load of config.AllowedReturnOrigins[i])
+				_, isConst := mu.Key.(*ssa.Const)
+				verbatim := isConst
+				if ld, ok := mu.Key.(*ssa.UnOp); ok && ld.Op == token.MUL {
+					if ia, ok := ld.X.(*ssa.IndexAddr); ok && strings.Contains(u.Describe(ia.X), "AllowedReturnOrigins") {
+						verbatim = true
+					}
+				}
+				if g, ok := mu.Key.(*ssa.UnOp); ok && g.Op == token.MUL {
+					if _, isGlobal := g.X.(*ssa.Global); isGlobal {
+						verbatim = true
+					}
+				}
+				isCall := !verbatim
 				r.Check(!isCall, "R-ALLOWLIST-VERBATIM", "SetOAuthPkce|entry#"+itoa(n), u.Pos(in.Pos()), "entry stored as configured", "the allowlist stores "+u.Describe(mu.Key)+" instead of the configured origin: an entry's port (or other component) is dropped, so a return URL on another port of that host is accepted")
 			})
 		}
